@@ -1,0 +1,38 @@
+//go:build verif
+
+package api
+
+// Assumed contracts of the api interfaces, used at interface call sites.
+// "pure": no side effect; the result is a function of the receiver, the arguments and the
+// abstract world state. "pure const": additionally independent of the world state
+// (immutable after construction).
+
+//@ iface api.FeatureInterface.Address pure const ensures result != nil
+//@ iface api.FeatureInterface.Type pure const
+//@ iface api.FeatureInterface.Role pure const
+//@ iface api.FeatureInterface.Operations pure
+//@ iface api.FeatureLocalInterface.Device pure const
+//@ iface api.FeatureLocalInterface.Entity pure const
+//@ iface api.FeatureRemoteInterface.Device pure const
+//@ iface api.FeatureRemoteInterface.Entity pure const
+
+//@ iface api.EntityInterface.Address pure const
+//@ iface api.EntityInterface.EntityType pure const
+//@ iface api.EntityRemoteInterface.Device pure const
+//@ iface api.EntityRemoteInterface.FeatureOfAddress pure
+//@ iface api.EntityRemoteInterface.Features pure
+//@ iface api.EntityLocalInterface.Device pure const
+//@ iface api.EntityLocalInterface.FeatureOfAddress pure
+//@ iface api.EntityLocalInterface.Features pure
+
+//@ iface api.DeviceInterface.Address pure
+//@ iface api.DeviceRemoteInterface.Ski pure const
+//@ iface api.DeviceRemoteInterface.Sender pure const
+//@ iface api.DeviceRemoteInterface.Entities pure
+//@ iface api.DeviceRemoteInterface.Entity pure
+//@ iface api.DeviceRemoteInterface.FeatureByAddress pure
+//@ iface api.DeviceLocalInterface.FeatureByAddress pure
+//@ iface api.DeviceLocalInterface.Entities pure
+//@ iface api.DeviceLocalInterface.BindingManager pure const
+//@ iface api.DeviceLocalInterface.SubscriptionManager pure const
+//@ iface api.DeviceLocalInterface.NodeManagement pure const
